@@ -126,6 +126,22 @@ class Facts:
             if f["module"] and f["module"][0] == "<example>":
                 continue
             self._index_items(f["items"], f["path"], tuple(f["module"]), f.get("test", False))
+        # provided (default) methods of the crate's own traits: every implementor that does not override one has it, with
+        # the trait's body
+        for path, module, it in self.impls:
+            if not it.get("trait"):
+                continue
+            tname = norm_ty(it["trait"]).split("<")[0].split("::")[-1]
+            tr = self.traits.get(tname)
+            if tr is None:
+                continue
+            st = re.sub(r"<(?:'[A-Za-z_]+,?)+>", "", norm_ty(it["self_ty"]))
+            have = {m["name"] for m in it["items"] if m.get("k") == "fn"}
+            for m in tr.get("items", []):
+                if m.get("k") == "fn" and m.get("default") is not None and m["name"] not in have:
+                    key = "<%s as %s>::%s" % (st, norm_ty(it["trait"]), m["name"])
+                    node = dict(m, body=m["default"], vis="", attrs=[], docs=[], test=False, provided_by=tname)
+                    self.fns.setdefault(key, Fn(key, node, path, module, it, False))
 
     def _index_items(self, items, path, module, test):
         for it in items:
